@@ -139,6 +139,37 @@ Proof.
 Qed.
 Print Assumptions C14_example_output_bytes.
 
+(* the seeded class C14-C on the model: package outer.v1.inner.v1 lies in a directory below package outer.v1.  The path.Dir
+   filter gives each package its own file under both listings, both local prefixes match the nested file, the owner is
+   outer.v1.inner.v1 for EVERY listing - whereas packageForFile as the seeded change writes it ("the first listed package whose
+   prefix matches") answers differently for the two listings; the run that lists the enclosing package first and the run
+   that lists it last (file listing and map orders reversed, outer.v1 compiled earlier) compile and print the nested package
+   to the same single file, which imports the enclosing package's file and a file of the dependency set *)
+Example C14_example_nested_package_directory :
+  (map (fun pre => J5sAst.has_prefix pre CmpbBytesExampleProofs.p_inner) (CmpbBytes.local_prefixes CmpbBytesExampleProofs.exn_pkgs) = [true; true]
+   /\ CmpbBytes.split_owner CmpbBytesExampleProofs.p_inner = b "outer.v1.inner.v1")
+  /\ (CmpbBytesExampleProofs.first_listed_owner CmpbBytesExampleProofs.exn_pkgs CmpbBytesExampleProofs.p_inner
+       <> CmpbBytesExampleProofs.first_listed_owner (rev CmpbBytesExampleProofs.exn_pkgs) CmpbBytesExampleProofs.p_inner
+      /\ forall pkgs, Permutation pkgs CmpbBytesExampleProofs.exn_pkgs ->
+           (if CmpbBytes.is_local_of pkgs CmpbBytesExampleProofs.p_inner then Some (CmpbBytes.split_owner CmpbBytesExampleProofs.p_inner) else None)
+           = Some (b "outer.v1.inner.v1"))
+  /\ (CmpbBytes.run_ok CmpbBytesExampleProofs.exn_pkgs CmpbBytesExampleProofs.exn_bd CmpbBytesExampleProofs.exn_r1
+      /\ CmpbBytes.run_ok CmpbBytesExampleProofs.exn_pkgs CmpbBytesExampleProofs.exn_bd CmpbBytesExampleProofs.exn_r2)
+  /\ exists o,
+       CmpbBytes.compile_and_print CmpbBytesExampleProofs.exn_bd CmpbBytesExampleProofs.exb_exts CmpbBytesExampleProofs.exn_ann
+         CmpbBytesExampleProofs.exn_r1 (b "outer.v1.inner.v1") = Some o
+       /\ CmpbBytes.compile_and_print CmpbBytesExampleProofs.exn_bd CmpbBytesExampleProofs.exb_exts CmpbBytesExampleProofs.exn_ann
+            CmpbBytesExampleProofs.exn_r2 (b "outer.v1.inner.v1") = Some o
+       /\ map (fun x => (fst (fst x), match snd (fst x) with Some d => fl_deps d | None => [] end)) o
+          = [(CmpbBytesExampleProofs.p_inner, [CmpbBytesExampleProofs.p_ann; b "outer/v1/outer.j5s.proto"])]
+       /\ forallb (fun x => negb (Nat.eqb (length (snd x)) 0)) o = true.
+Proof.
+  exact (conj (proj2 (proj2 CmpbBytesExampleProofs.exn_attribution))
+          (conj CmpbBytesExampleProofs.exn_first_listed_owner_order_dependent
+            (conj CmpbBytesExampleProofs.exn_runs_ok CmpbBytesExampleProofs.exn_computes))).
+Qed.
+Print Assumptions C14_example_nested_package_directory.
+
 (* ... and the tokens of the example are protobuf text FOR the descriptor in tool's model: every printer descriptor that
    to_print builds there, under both Range orders, is well formed in tool's sense (every type reference resolves in the symbol
    table of the file and its imports ...), so (tool's round-trip theorem) the printed tokens parse back to an equivalent descriptor *)
